@@ -148,7 +148,38 @@ def check_conversation(core: DCCore, since: int, expect_getkey: tuple, auth_type
     return bad
 
 
-def ref_blob(rng: random.Random, rkid: uuid.UUID, rk: cms.RootKey, sid: str, pos: t.Tuple[int, int, int], mode: str, plaintext: bytes, in_envelope: bool = True, domain: str = "verif.test", forest: t.Optional[str] = None) -> bytes:
+RFC5114_Q = int("8CF83642A709A097B447997640129DA299B1A47D1EB3750BA308B0FE64F5FBD3", 16)
+_LZ_K: t.List[int] = []
+
+
+def leading_zero_exponents() -> t.List[int]:
+    """small k with g^k mod p (RFC 5114 2048/256) starting with a zero byte"""
+    if not _LZ_K:
+        v = 1
+        for k in range(1, 6000):
+            v = v * common.RFC5114_G % common.RFC5114_P
+            if v < (1 << (8 * 255)):
+                _LZ_K.append(k)
+            if len(_LZ_K) >= 6:
+                break
+    return _LZ_K
+
+
+def dh_ephemeral_for_leading_zero_secret(rng: random.Random, priv_server: int) -> int:
+    """eph with (g^priv_server)^eph = g^k, k chosen so that the shared secret has a leading zero byte."""
+    k = rng.choice(leading_zero_exponents())
+    return k * pow(priv_server % RFC5114_Q, -1, RFC5114_Q) % RFC5114_Q
+
+
+def server_private(rk: cms.RootKey, rkid: uuid.UUID, sid: str, pos: t.Tuple[int, int, int]) -> int:
+    from vf.ref import crypto
+
+    s = rsd.canonical_sid_from_string(sid)
+    l2k = crypto.l2_key_single(rk.hash_name, rk.key, rkid, rsd.target_sd(s), *pos)
+    return int.from_bytes(crypto.private_from_seed(rk.hash_name, l2k, rk.secret_algorithm, rk.private_key_length), "big")
+
+
+def ref_blob(rng: random.Random, rkid: uuid.UUID, rk: cms.RootKey, sid: str, pos: t.Tuple[int, int, int], mode: str, plaintext: bytes, in_envelope: bool = True, domain: str = "verif.test", forest: t.Optional[str] = None, leading_zero_secret: bool = False) -> bytes:
     """A blob as a Windows peer would emit it (reference crypto only). mode: 'nonce' | 'public'."""
     from vf.ref import crypto
 
@@ -162,6 +193,8 @@ def ref_blob(rng: random.Random, rkid: uuid.UUID, rk: cms.RootKey, sid: str, pos
     if rk.secret_algorithm == "DH":
         kl, p, g = rg.dec_ffc_dh_parameters(rk.secret_parameters)
         eph = rng.getrandbits(rk.private_key_length)
+        if leading_zero_secret and p == common.RFC5114_P:
+            eph = dh_ephemeral_for_leading_zero_secret(rng, priv_s)
         key_info = rg.enc_ffc_dh_key(kl, p, g, pow(g, eph, p))
         z = pow(pow(g, priv_s, p), eph, p).to_bytes(kl, "big")
         kek = crypto.kek_from_secret(rk.hash_name, z, "sha256")
